@@ -174,29 +174,34 @@ class Spec:
         return out[:2]
 
     def enabled(self, st, depth_left):
-        full = self.alphabet == "full"
+        full = self.alphabet in ("full", "medium")
+        mini = self.alphabet == "mini"
         evs = []
         for d in range(len(st.docs)):
             for (s, t) in self._active_tables(st, d):
                 rt = st.ref[d][s][1][t]
                 nr, nc = rt.nr, rt.nc
                 big = nr > 50
-                vals = ["s", "i", "f", "b", "dt", "td", "0", "e"] if full else ["s", "0"]
+                vals = {"full": ["s", "i", "f", "b", "dt", "td", "0", "e"], "medium": ["s", "f", "dt", "0", "e"], "reduced": ["s", "0"], "mini": ["s"]}[self.alphabet]
                 if big:
                     pos = sorted({(0, 0), (255, 0), (256, 0), (nr - 1, nc - 1), (nr, 0)} & {(r, c) for r in range(nr + 1) for c in range(nc)})
                     vals = ["s"]
                 else:
                     pos = [(r, c) for r in range(nr) for c in range(nc)] if nr * nc <= 9 else [(0, 0), (nr // 2, nc // 2), (nr - 1, nc - 1), (0, nc - 1)]
                     pos += [(nr, 0), (0, nc), (nr + 1, nc + 1)] if full else [(nr, nc)]
+                if self.alphabet == "mini":
+                    pos = [(0, 0), (nr, nc)]
                 for (r, c) in pos:
                     for v in vals:
                         evs.append(["write", d, s, t, r, c, v])
                 ns = [1, 2] if full else [1]
-                defaults = [None, "d", "0", "e", "F"] if full else [None, "d", "0"]
+                defaults = {"full": [None, "d", "0", "e", "F"], "medium": [None, "d", "0"], "reduced": [None, "d", "0"], "mini": [None, "0"]}[self.alphabet]
                 if big:
                     ns, defaults = [1], [None]
                 for axis, size in (("row", nr), ("col", nc)):
                     starts = [None] + sorted({0, size // 2, size - 1})
+                    if mini:
+                        starts = [None, 0]
                     if big:
                         starts = [None, 0, 255, 256] if axis == "row" else [None, 0]
                         starts = [x for x in starts if x is None or x < size]
@@ -206,12 +211,20 @@ class Spec:
                                 evs.append([f"add_{axis}", d, s, t, n, start, dv])
                             if (start if start is not None else size - n) + n <= size and size - n >= 1 and (start is not None or n <= size - 1):
                                 evs.append([f"del_{axis}", d, s, t, n, start])
+                    if mini:
+                        continue
                     # out-of-range start: the statement's IndexError + unchanged state
                     evs.append([f"add_{axis}", d, s, t, 1, size, None])
                     evs.append([f"del_{axis}", d, s, t, 1, size])
                     if full:
                         evs.append([f"add_{axis}", d, s, t, 1, -1, None])
-                evs.append(["rename_table", d, s, t, "Renamed"])
+                if not mini:
+                    evs.append(["rename_table", d, s, t, "Renamed"])
+            if mini:
+                if st.saves < self.max_saves:
+                    evs.append(["save", d])
+                    evs.append(["reopen", d])
+                continue
             ntab = sum(len(sh[1]) for sh in st.ref[d])
             if ntab < self.max_tables:
                 evs.append(["add_table", d, 0, None, 2, 2])
@@ -428,7 +441,9 @@ class Spec:
 
 SPECS = {
     "full": Spec("full"),
+    "medium": Spec("medium"),
     "reduced": Spec("reduced"),
+    "mini": Spec("mini"),
 }
 
 
@@ -436,10 +451,11 @@ def plan(tier):
     """(spec name, init ids, depth, probe, max_states)"""
     if tier == "quick":
         return [
-            ("full", ["fresh:2x2"], 2, True, None),
-            ("reduced", ["fresh:1x1", "fresh:2x3", "fresh:3x2", "fixture:test-1.numbers"], 2, True, None),
-            ("reduced", ["two:2x2"], 2, True, None),
-            ("reduced", ["fresh:2x2"], 3, False, None),
+            ("medium", ["fresh:2x2"], 2, True, None),
+            ("reduced", ["fixture:test-1.numbers"], 2, True, None),
+            ("reduced", ["two:2x2"], 1, True, None),
+            ("reduced", ["two:2x2", "fresh:1x1", "fresh:2x3"], 2, False, None),
+            ("mini", ["fresh:2x2"], 3, True, None),
             ("reduced", ["tile:256x2", "tile:257x2"], 1, True, None),
         ]
     return [
@@ -448,7 +464,9 @@ def plan(tier):
         ("full", ["fresh:2x2"], 3, False, None),
         ("reduced", ["two:2x2"], 3, True, None),
         ("reduced", ["fresh:2x2", "fresh:1x1"], 3, True, None),
-        ("reduced", ["fresh:2x2"], 4, False, 60000),
+        ("reduced", ["fresh:3x2"], 2, True, None),
+        ("mini", ["fresh:2x2", "fresh:1x1"], 4, True, None),
+        ("reduced", ["fresh:2x2"], 3, False, None),
         ("reduced", ["tile:255x2", "tile:256x2", "tile:257x2"], 2, True, None),
     ]
 
